@@ -61,6 +61,10 @@ func vPanicMsg() string
 func vSameSlice(a, b []byte) bool
 func vEventCount(sub string) int
 func vPrint(x any)
+func vWatchFields(ptr any)
+func vSetAccessHook(f func())
+func vClearAccessHook()
+func vWatchedReads() int
 func vHash(kind string, data []byte, n int) []byte
 func vSchedule()
 func vCtxTimeout(ctx interface{ Done() <-chan struct{} }) (int64, bool)
